@@ -207,6 +207,33 @@ def run_split(ctx, cases, dist):
         ctx.case(c, nontriv, {"program": c, "steps": len(lg["steps"])} if nontriv else None)
 
 
+# ---------------------------------------------------------------------------------------------- simgrid-mc (thorough)
+MC_PROGS = [[-2, 2, 2, 2], [-2, 3, 3, 2], [-2, 2, 2, 3], [-2, 4, 2, 1]]   # -2 actors size rounds (harness/c07_mc_prog)
+
+
+def run_mc(ctx, cases):
+    """simgrid-mc explores every interleaving of tiny programs; only an explicit counter-example counts (a time-out or
+    any other outcome is recorded as inconclusive, never an alarm)"""
+    import re
+    prog = fw.build_harness("c07_mc_prog")
+    res = {}
+    for c in cases:
+        rc, so, se = fw.sh2([fw.SIMGRID_MC, prog] + [str(x) for x in c[1:4]] + ["--log=root.thres:info"], timeout=300)
+        txt = so + se
+        if "PROPERTY NOT VALID" in txt:
+            m = re.search(r"model-check/replay:'([^']*)'", txt)
+            v = "violation"
+            ctx.fail("barrier-mc-assert", "simgrid-mc, %d actors x %d rounds on a barrier of size %d: more waits returned than actors in complete "
+                     "groups; counter-example %s" % (c[1], c[3], c[2], m.group(1) if m else "?"), {"case": c})
+        elif "exploration ended" in txt:
+            v = "clean"
+        else:
+            v = "inconclusive(rc=%d)" % rc
+        res[" ".join(map(str, c[1:4]))] = v
+        ctx.case(c, v != "clean" or c[3] > 1, {"program": c, "verdict": v})
+    ctx.cov["simgrid_mc"] = res
+
+
 def model_input(n, ops):
     inp = [n]
     for o in ops:
@@ -224,19 +251,22 @@ def parse_model(out, ops):
 
 
 def run(ctx):
-    ctx.simgrid(["simgrid"])
+    ctx.simgrid(["simgrid"] if ctx.quick and not ctx.replay else ["simgrid", "simgrid-mc"])
     ctx.prove()
     ctx.cov["rule"] = ("random programs: 1-6 actors, 1-2 barriers of size 0..6 (mostly <= number of actors), 1-4 waits per actor "
                        "separated by dyadic sleeps (ties on purpose), kernel-state PEEKs; non-trivial = some barrier released a group "
                        "of >= 2 or left an incomplete group blocked; distinct = distinct programs. Split programs (first number -1): "
                        "1-5 actors x 1-4 rounds on one barrier of size 0..5 with a random schedule of the pending ASYNC_LOCK/WAIT "
                        "simcalls; non-trivial = some WAIT was fired before its grant (blocks) or some group was granted while a "
-                       "member had locked but not yet waited (marked, not woken)")
+                       "member had locked but not yet waited (marked, not woken). Thorough tier: 4 tiny programs (first number -2) explored "
+                       "exhaustively by simgrid-mc")
     if ctx.replay:
         cases = [k1.replay_case(ctx)]
         scases = [c for c in cases if c and c[0] == -1]
-        cases = [c for c in cases if not (c and c[0] == -1)]
+        mcases = [c for c in cases if c and c[0] == -2]
+        cases = [c for c in cases if not (c and c[0] < 0)]
     else:
+        mcases = [] if ctx.quick else list(MC_PROGS)
         cases = list(CORPUS) + [gen_case(ctx.rng) for _ in range(ctx.n(300, 4000))]
         scases = list(SPLIT_CORPUS) + [gen_split(ctx.rng) for _ in range(ctx.n(400, 6000))]
     logs = k1.run_impl(cases)
@@ -269,6 +299,8 @@ def run(ctx):
             "split_programs": 0, "split_steps": 0, "split_grants": 0, "split_marked": 0, "split_blocks": 0}
     if scases:
         run_split(ctx, scases, dist)
+    if mcases:
+        run_mc(ctx, mcases)
     nontriv = [False] * len(cases)
     blocked_forever = [False] * len(cases)
     # O: the judge on implementation observations
@@ -345,8 +377,8 @@ def run(ctx):
     ctx.cov["input_distribution"] = dist
     ctx.assumptions += ["sequential contexts (contexts/nthreads:1): the order of the REQ lines is the order in which the kernel executes the calls",
                         "two-simcall protocol: driven in-process in replay mode (MC_record_path set, the harness handles the pending "
-                        "simcalls as mc::RecordTrace::replay does); simgrid-mc's own exploration order is not what is tested, the "
-                        "theorems cover every interleaving",
+                        "simcalls as mc::RecordTrace::replay does); simgrid-mc itself only explores 4 tiny programs in the thorough "
+                        "tier (a time-out there is inconclusive, not an alarm); the theorems cover every interleaving",
                         "actors killed while blocked in a barrier are outside the property (the harness leaves at the deadlock report)"]
 
 
@@ -367,7 +399,7 @@ META = {
             "acquisitions granted/blocked, returned waits); the verified judge (C07_judge_sound) decides "
             "violations on the implementation's observations alone.",
     "note": "Modelled: BarrierImpl::acquire_async + wait_for on the one-simcall path and on the two-simcall path of the model checker / replay "
-            "mode (the latter driven in-process, not through simgrid-mc). Not modelled: sthread, "
+            "mode (the latter driven in-process; simgrid-mc itself runs 4 tiny programs in the thorough tier only). Not modelled: sthread, "
             "parallel contexts, kills of blocked actors (a kill of an actor blocked in a barrier segfaults in BarrierAcquisitionImpl::finish - "
             "reported, outside C07). Trusted: Coq kernel, extraction, harness/k1_sync.cpp, checks/k1_common.py (log projection).",
     "technique": "Coq proof (invariant over all op sequences, div/mod arithmetic) + replay correspondence on the real scheduler + verified trace judge",
